@@ -300,3 +300,26 @@ def _dap_cases():
 
 contract("ghost:parse_dump_as_parsed", use_at_calls=False, opaque=["dby"],
          cases=_dap_cases(), check_frames=False)
+
+
+# ---------------------------------------------------------------- strftime, then strptime (C17)
+FULL_FORMATS = ["%Y-%m-%dT%H:%M:%S%z", "%Y%m%dT%H%M%S%z", "%FT%X%z", "%Y-%jT%H:%M:%S%z",
+                "%d.%m.%Y %H:%M:%S %z"]
+
+
+def _sfp_cases():
+    from .shapes import mk_timepoint, DATES
+    out = []
+    for d in DATES:
+        for i, fmt in enumerate(FULL_FORMATS):
+            def build(E, st, d=d, fmt=fmt):
+                p = mk_timepoint(E, st, "p", d, "hms", whole=True, ned=0)
+                return {"p": p, "parser": mk_text_parser(E, st, x=0, assumed=None), "fmt": fmt}
+            out.append(Case("%s|%s" % (d, fmt), build,
+                            requires=["normal(p)", "tz_ok(p._time_zone)", "p._dump_format is None",
+                                      "dby(0) < date_abs(p) and date_abs(p) <= dby(10000)"]))
+    return out
+
+
+contract("ghost:strftime_strptime_round_trip", use_at_calls=False, opaque=["dby"],
+         cases=_sfp_cases(), check_frames=False)
